@@ -77,7 +77,7 @@ var c09Lits = append(append([]string{}, hostileLits...), "a\xffb", "\xff", "a\xe
 
 func checkC09(c *Ctx) {
 	c.Level = "model_checking"
-	c.Set("rule", "Pipeline.tla models main() (stages, exit paths, packages written); TLC checks that every behaviour terminates and that status zero implies exactly the required packages, for all 64 flag sets x all input feature vectors, and emits the outcome table; every row (quick: every row of a seeded half of the flag sets) is instantiated with a concrete grammar and run on the real gocc: zero/non-zero status and the set of packages written must equal the model's, and whenever the status is zero the written packages must compile (go build); hostile spellings (quotes, backslashes, back-quotes, %, {{, */, non-ASCII, raw invalid UTF-8, BOM, NUL and control bytes, long names in string literals, character literals and action expressions) must compile whenever gocc exits 0; seeded byte-level mutations, bracket towers and all nullable repetition shapes up to depth 3 must terminate. distinct_nontrivial counts distinct (file, flags) runs")
+	c.Set("rule", "Pipeline.tla models main() (stages, exit paths, packages written); TLC checks that every behaviour terminates and that status zero implies exactly the required packages, for all 64 flag sets x all input feature vectors, and emits the outcome table; every row (quick: every row of a seeded half of the flag sets) is instantiated with a concrete grammar and run on the real gocc: zero/non-zero status and the set of packages written must equal the model's, and whenever the status is zero the written packages must compile (go build); hostile spellings (quotes, backslashes, back-quotes, %, {{, */, non-ASCII, raw invalid UTF-8, BOM, NUL and control bytes, long names in string literals, attributes between quote rune literals in actions, token and production names that are Go keywords or identifiers of the generated packages, character literals and action expressions) must compile whenever gocc exits 0; seeded byte-level mutations, bracket towers and all nullable repetition shapes up to depth 3 must terminate. distinct_nontrivial counts distinct (file, flags) runs")
 	c.Assume("gocc is run with -o below the working directory of a scratch module whose go.mod names the module (import paths derive from it)")
 	tab := c.pipelineTable()
 	rng := rand.New(rand.NewSource(c.Seed))
@@ -196,11 +196,17 @@ func checkC09(c *Ctx) {
 				}
 			}
 			for pi := range g.Prods {
-				switch rng.Intn(5) {
+				switch rng.Intn(6) {
 				case 0:
 					g.Prods[pi].Action = "\"%d {{ }} */ /* \\\" \\\\ é 日本 $x\", nil"
 				case 1:
 					g.Prods[pi].Action = "`raw %s {{.}} */`, nil"
+				case 2:
+					// attributes between rune literals of quotes: where a string seems to begin
+					// is for the Go scanner to say
+					if len(g.Prods[pi].Body) > 0 {
+						g.Prods[pi].Action = "[]interface{}{'\"', $0, '\"', '`', $0, '`', '\\'', \"'\", $0, '\\\\'}, nil"
+					}
 				}
 			}
 			text = g.render()
@@ -232,6 +238,27 @@ func checkC09(c *Ctx) {
 			fl = append(fl, "debug_parser", "debug_lexer")
 		}
 		hcases = append(hcases, &c09Case{Text: strings.ReplaceAll(text, "@@PKG@@", "scratch/x"), Flags: fl, Feature: "hostile spellings"})
+	}
+	// names that mean something in Go or in the generated packages, as token and production names
+	idPool := []string{"type", "func", "package", "import", "var", "const", "range", "token", "pos", "context", "sourcer", "tokMap", "tokenMap",
+		"eOF", "iNVALID", "init", "main", "nil", "true", "string", "int", "len", "lexer", "parser", "errors", "util", "fmt", "attrib", "stack",
+		"newParser", "actionTable", "gotoTable", "productionsTable", "x", "lit", "id"}
+	ntPool := []string{"Type", "Token", "Pos", "Parser", "Attrib", "Error", "NewParser", "ProdTab", "ActionTable", "Context", "Func", "String", "X", "Lexer", "Init", "Main"}
+	for i := 0; i < c.pick(8, 60); i++ {
+		o := c02Opts
+		o.PLit, o.Actions = 0, i%2 == 0
+		g := genSynGrammar(rng, o)
+		rng.Shuffle(len(idPool), func(a, b int) { idPool[a], idPool[b] = idPool[b], idPool[a] })
+		rng.Shuffle(len(ntPool), func(a, b int) { ntPool[a], ntPool[b] = ntPool[b], ntPool[a] })
+		for k := range g.Terms {
+			if !g.IsLit[k] && g.Terms[k] != "error" && g.Terms[k] != "empty" {
+				g.Terms[k] = idPool[k%len(idPool)]
+			}
+		}
+		for k := range g.NTs {
+			g.NTs[k] = ntPool[k%len(ntPool)]
+		}
+		hcases = append(hcases, &c09Case{Text: g.render(), Flags: []string{"a"}, Feature: "names that mean something in Go or in the generated code"})
 	}
 	// ordinary grammars with logging actions over the whole $-vocabulary ($10 and above included)
 	for _, g := range append(curatedActionSyn(), curatedErrSyn()...) {
